@@ -206,6 +206,7 @@ def main():
     run.sample(dict(obligation='lrt_test[pheno_linear->pheno,0.05]', harness='C19_criteria.py',
                     claim='forall real Lp, Lc: test(...) <=> Lp - Lc >= chi2.isf(0.05, 3) (outside a 1e-6 band)'))
     nd = sum(1 for o in run.obligations if o['verdict'] == 'discharged')
+    run.extra['timing_s'] = {o['name']: [o['verdict'], o['solver_s']] for o in run.obligations}
     run.finish(coverage=dict(
         explanation='partial claim. (1) bounded symbolic execution (CrossHair/z3) of the real rank_models, '
                     'get_rankval, is_strictness_fulfilled and lrt functions over symbolic integer objective values, '
